@@ -43,7 +43,7 @@
      finding, C17_reindex_new_period_raises — and no C17_trace_... theorem speaks about those. *)
 From Coq Require Import ZArith List Bool PrimFloat.
 Import ListNotations.
-Require Import PyBase Solver SolverFacts SolverF SolveAll Tracer TracerSolve TracerNames TracerLinked TracerReindex TracerFacts TracerFacts2 TracerFacts3 TracerFacts4 TracerF TracerExamples.
+Require Import PyBase Solver SolverFacts SolverF SolveAll Tracer TracerSolve TracerNames TracerLinked TracerReindex TracerKw TracerFacts TracerFacts2 TracerFacts3 TracerFacts4 TracerFacts5 TracerF TracerExamples.
 Open Scope Z_scope.
 
 Section C17.
@@ -442,6 +442,35 @@ Section C17.
   Proof. exact (linked_entries_labels num zero ev t em cf names n k v). Qed.
 End C17.
 
+(* THE KEYWORDS THE FOUR WRAPPERS THREAD THROUGH, EXPLICIT (TracerKw.v; independent review item 1).  BaseModel.solve_t hands
+   its hooks errors=, catch_first_error=, iteration= and **kwargs (trace=, reset= and any further user keyword x); each
+   wrapper binds trace / reset / iteration and calls super() with `trace=trace, reset=reset, iteration=iteration, **kwargs`
+   (the function `forward`; a wrapper that forgets something is another function).  For ALL user hooks — functions of
+   the iteration number, errors, catch_first_error and the user keywords they receive — the traced call erases to the call
+   on the plain class with the same options and user keywords: values, statuses, iteration counts, hook-call order, result. *)
+Theorem C17_noninterference_with_keywords (num : Type) (sub : num -> num -> num) (absf : num -> num) (ltb : num -> num -> bool)
+        (isfin : num -> bool) (zero : num) cfg a r x (ev before after : uhook num) d o t s (tr : traces num) :
+  ushape_pres num ev -> ushape_pres num before -> ushape_pres num after ->
+  (truthy a = true -> ready num cfg a r t (vals_of s) tr) ->
+  let R := traced_solve_t_K num sub absf ltb isfin zero forward forward forward cfg a r x ev before after d o t s tr in
+  (fst (fst R), snd R) = plain_solve_t_K num sub absf ltb isfin zero x ev before after d o t s.
+Proof. exact (kw_noninterference num sub absf ltb isfin zero cfg a r x ev before after d o t s tr). Qed.
+
+(* what the user's hook receives through the real wrapper is what it receives on the plain class, for every trace / reset *)
+Theorem C17_wrappers_forward_every_keyword (num : Type) (h : uhook num) a r x :
+  (forall kw, forward kw = kw) /\ wrapped_hook num forward h a r x = plain_hook num h x.
+Proof. exact (conj forward_id (wrapped_forward_is_plain num h a r x)). Qed.
+
+(* ... and the statement is not structural: a wrapper that forgets `iteration=iteration` (pre-hook wrapper here), or drops
+   **kwargs, breaks it for hooks that use what they are handed — the traced call fails where the plain one solves *)
+Theorem C17_forgetting_iteration_is_noticed :
+  snd (tx_P [] u_quiet) = Ret true /\ snd (tx_K forward_without_iteration forward forward [] u_quiet) = Raise (SolutionError (Some 13)).
+Proof. exact forgetting_iteration_is_noticed. Qed.
+Theorem C17_forgetting_kwargs_is_noticed :
+  snd (tx_P [(7%nat, 1)] u_tagged) = Ret true
+  /\ snd (tx_K forward forward_without_kwargs forward [(7%nat, 1)] u_tagged) = Raise (SolutionError (Some 12)).
+Proof. exact forgetting_kwargs_is_noticed. Qed.
+
 (* FINDING #16 (still present).  Without the width guard non-interference is false: valid names, t in the span,
    default reset=False, and the traced call raises ValueError (nothing solved) where the same call without `trace=`
    solves the period.  Witness: solve_t(1, trace='V0') then solve_t(1, trace=['V0','V1']). *)
@@ -656,6 +685,10 @@ Print Assumptions C17_trace_shape_unsolved.
 Print Assumptions C17_trace_of_run.
 Print Assumptions C17_trace_every_path.
 Print Assumptions C17_trace_reset_keeps_last_only.
+Print Assumptions C17_noninterference_with_keywords.
+Print Assumptions C17_wrappers_forward_every_keyword.
+Print Assumptions C17_forgetting_iteration_is_noticed.
+Print Assumptions C17_forgetting_kwargs_is_noticed.
 Print Assumptions C17_trace_width_mismatch_refuted.
 Print Assumptions C17_linked_submodel_passes.
 Print Assumptions C17_linked_submodel_labels.
